@@ -144,7 +144,19 @@ func (c *Ctx) chanInit(st *State, r Term) {
 	st.heap[chClosed] = sto(cl, r, tFalse)
 }
 
+// chanMode: the declared mode of a channel (mailbox | count | signal); a mode may carry the flag `selectonly`
+// ("count,selectonly"), answered by chanSelectOnly
 func (c *Ctx) chanMode(fr *Frame, v ssa.Value) string {
+	m := c.chanModeRaw(fr, v)
+	m = strings.TrimSuffix(strings.TrimSuffix(m, ",selectonly"), "selectonly")
+	return m
+}
+
+func (c *Ctx) chanSelectOnly(fr *Frame, v ssa.Value) bool {
+	return strings.HasSuffix(c.chanModeRaw(fr, v), "selectonly")
+}
+
+func (c *Ctx) chanModeRaw(fr *Frame, v ssa.Value) string {
 	switch x := v.(type) {
 	case *ssa.UnOp:
 		if x.Op == token.MUL {
@@ -175,6 +187,14 @@ func (c *Ctx) chanMode(fr *Frame, v ssa.Value) string {
 
 func (c *Ctx) chanSend(st *State, fr *Frame, ch Term, v Val, chv ssa.Value, pos token.Pos) {
 	mode := c.chanMode(fr, chv)
+	if mode == "signal" {
+		// a channel declared close-only: nothing is ever sent on it (so a completed receive means it was closed)
+		c.oblige(st, fr, "chan", "nothing-is-sent-on-a-close-only-channel", "", pos, tFalse, nil, "chanmode signal")
+	}
+	if c.chanSelectOnly(fr, chv) {
+		// a send that nobody may ever pick up must be abandonable: only as an alternative of a select
+		c.oblige(st, fr, "chan", "send-is-a-select-alternative", "", pos, tFalse, nil, "chanmode selectonly")
+	}
 	if mode == "mailbox" {
 		l := c.heapCur(st, chLen, arrSort(SInt))
 		cl := c.heapCur(st, chClosed, arrSort(SBool))
@@ -212,6 +232,10 @@ func (c *Ctx) chanRecv(st *State, fr *Frame, ch Term, chv ssa.Value, commaOk boo
 		return r
 	}
 	c.noteCtxDone(st, ch, tTrue)
+	if mode == "signal" {
+		cl := c.heapCur(st, chClosed, arrSort(SBool))
+		st.assume(sel(cl, ch, SBool))
+	}
 	var r Val
 	if _, isStruct := et.Underlying().(*types.Struct); isStruct {
 		r = c.freshTyped(st, "recv", types.Typ[types.Int])
@@ -259,6 +283,11 @@ func (c *Ctx) selectInstr(st *State, fr *Frame, x *ssa.Select) {
 	for i, s := range x.States {
 		if s.Dir == types.RecvOnly {
 			c.noteCtxDone(st, c.term(st, fr, s.Chan), eq(idx, mkInt(int64(i))))
+			if c.chanMode(fr, s.Chan) == "signal" {
+				// close-only channel: the receive completes only because the channel was closed
+				cl := c.heapCur(st, chClosed, arrSort(SBool))
+				st.assume(implies(eq(idx, mkInt(int64(i))), sel(cl, c.term(st, fr, s.Chan), SBool)))
+			}
 			et := s.Chan.Type().Underlying().(*types.Chan).Elem()
 			var rv Term
 			if _, isStruct := et.Underlying().(*types.Struct); isStruct {
